@@ -110,6 +110,7 @@ func runC04(w *World, r *Report, tier string) {
 	ruleWrapper(w, r, wrapperSpec{Wrapper: "integrate.MergeSpatialIds", Extended: "integrate.MergeExtendedSpatialIds", ZoomArg: 1, ExtH: 1, ExtV: 2, IDsArg: 0})
 	ruleEligibility(w, r)
 	ruleNoSkip(w, r, "integrate.MergeExtendedSpatialIds")
+	ruleUnitZoom(w, r)
 	ruleCacheKey(w, r, cl)
 	guardRows(w, r, "C04")
 }
